@@ -1139,6 +1139,9 @@ class Wtp:
         """
         self.db_conn.execute(query_str)
         self.db_conn.commit()
+        # Pages looked up while propagating (and redirect pages updated by the
+        # two statements above) are memoized with their old flag
+        self.get_page.cache_clear()
 
     def set_template_pre_expand(self, name: str) -> None:
         self.db_conn.execute(
